@@ -1175,6 +1175,7 @@ def check_x1(rep, idx_cs):
         raise XErr("transport operator %s" % A.show(e)[:50])
 
     value_steps = []
+    guard_skips = []
 
     def run(node):
         for s in A.kids(node):
@@ -1200,8 +1201,31 @@ def check_x1(rep, idx_cs):
                         raise XErr("declaration %s = %s" % (nm, A.show(e)[:60]))
             elif k == "IfStmt":
                 c = A.to_expr(A.kids(s)[0])
-                if not (c[0] == "mcall" and c[2] == "has_value"):
+                conj = []
+
+                def flat(x):
+                    if x[0] == "op" and x[1] == "&&":
+                        flat(x[2])
+                        flat(x[3])
+                    else:
+                        conj.append(x)
+                flat(c)
+                req = [x for x in conj if x[0] == "mcall" and x[2] == "has_value"]
+                extra = [x for x in conj if not (x[0] == "mcall" and x[2] == "has_value")]
+                if not req:
                     raise XErr("condition %s" % A.show(c))
+                if extra:
+                    # an additional guard on the degree: the update is skipped for the degrees that falsify it
+                    import pe as _pe
+                    skipped = []
+                    for kdeg in range(1, 7):
+                        try:
+                            if not all(_pe.ev(x, {"K": kdeg}) for x in extra):
+                                skipped.append(kdeg)
+                        except _pe.PEError as ex_:
+                            raise XErr("guard %s of a derivative update is not a condition on the degree K (%s)" % (A.show(c)[:60], ex_))
+                    tg = sorted({str(x[1][1]) for x in req if x[1][0] == "ref"})
+                    guard_skips.append((A.show(c)[:80], skipped, tg, s))
                 run(A.kids(s)[1])
             elif k == "CompoundStmt":
                 run(s)
@@ -1286,6 +1310,17 @@ def check_x1(rep, idx_cs):
             cs = " + ".join("%s%s" % (("%s*" % a) if a != 1 else "", "*".join(m) or "1") for m, a in sorted(c.items()))
             parts.append("(%s) %s" % (cs, fmt_t(t)))
         return " + ".join(parts) or "0"
+    for ctext, skipped, tgs, node_ in guard_skips:
+        # for K = 1 the true acceleration and jerk of exp(B_1(u) v_1) vanish (second and third basis derivatives are 0 and [v, v] = 0),
+        # so skipping them is exact; every other skipped update leaves a requested output at its zero initial value although the
+        # recursion gives a non-zero term
+        harmful = [k_ for k_ in skipped if k_ >= 2 or "vel" in tgs]
+        rep.instance("X1", "cspline_eval_vs", "guard %s" % ctext, ok=not harmful, sample={"file": fe.rel(d.file), "line": d.line, "skipped_for_K": skipped})
+        if harmful:
+            rep.violation(Finding("X1", "cspline_eval_vs", "guard %s" % ctext,
+                                  "the update of %s is skipped for degree K in %s by the guard `%s`; the recursion contributes bracket terms "
+                                  "(B1^2 [[w, v], v] and B2 [w, v] for the jerk) that do not vanish for K >= 2, so the requested output is wrong there"
+                                  % ("/".join(tgs), harmful, ctext), d.file, d.line))
     for name, got, want, what in (("vel", state["vel"], vel1, "w_j = Ad(exp(-B_j v_j)) w_{j-1} + B_j' v_j"),
                                   ("acc", state["acc"], acc1, "a_j = Ad a_{j-1} + B_j' [w_j, v_j] + B_j'' v_j"),
                                   ("jer", state["jer"], jer1, "j_j = Ad j_{j-1} + 2 B' [a_j, v] - B'^2 [[w_j, v], v] + B'' [w_j, v] + B''' v")):
